@@ -437,6 +437,7 @@ static void handle_include (const char *inc_name, int optional) {
   static char buf[INC_BUF_SIZE];
   incstate_t *is;
   int delim, fd;
+  int macro_hops = 0;
 
   /* need a writable copy */
   fname[sizeof(fname)-1] = 0;
@@ -444,24 +445,25 @@ static void handle_include (const char *inc_name, int optional) {
   name = fname;
   opt_trace (TT_COMPILE|2, "header: %s", name);
 
-  if (*name != '"' && *name != '<')
+  while (*name != '"' && *name != '<')
     {
       defn_t *d;
 
-      if ((d = lookup_define (name)) && d->nargs == -1)
+      /* #include MACRO; a macro that names itself (or a cycle of macros) is not followed for ever */
+      if (macro_hops++ < MAX_INCLUDE_DEPTH && (d = lookup_define (name)) && d->nargs == -1)
         {
           char *q;
 
-          q = d->exps; /* #include MACRO */
+          q = d->exps;
           while (isspace (*q))
             q++;
-          handle_include (q, optional);
+          strncpy (fname, q, sizeof(fname)-1);
         }
       else
         {
           include_error ("Missing leading \" or < in #include");
+          return;
         }
-      return;
     }
 
   /* convert "header" or <header> to header */
